@@ -43,7 +43,7 @@ def make(shape: Dict[str, Any], tier: str = 'thorough') -> Any:
             ttl = ctx.int(f'ttl_{key}', 1, TTL_MAX)
             zc.cache.async_add_records([VOCAB[key].make(ttl, t0 - age, True)])
             known[key] = (t0 - age, ttl)
-        info = AsyncServiceInfo(T1, NAME)
+        info = AsyncServiceInfo(T1, NAME, server=HOST) if shape.get('server_given') else AsyncServiceInfo(T1, NAME)
         task = loop.create_task(info.async_request(zc, timeout, qtype))
         loop.run_ready()
         finished_at: Optional[Any] = t0 if task.done() else None
@@ -91,7 +91,7 @@ def make(shape: Dict[str, Any], tier: str = 'thorough') -> Any:
                     return True
             return False
 
-        server_known = any(k in ('S1', 'S1b') and unexpired(known[k], t0) for k in cached)
+        server_known = bool(shape.get('server_given')) or any(k in ('S1', 'S1b') and unexpired(known[k], t0) for k in cached)
         have_addr = server_known and cache_has_address(t0, 0)
         success_at: Optional[Any] = t0 if (server_known and have_addr) else None
         sufficed_at_start = success_at is not None
@@ -123,7 +123,9 @@ def make(shape: Dict[str, Any], tier: str = 'thorough') -> Any:
             ctx.check(finished_at == deadline, 'unsuccessful lookup did not return exactly at its timeout')
         ctx.check(finished_at <= deadline, 'lookup returned after its timeout')
         if result is True:
-            ctx.check(info.server is not None and info.server.lower() == HOST and info.port in (80, 81), 'host / port not taken from the SRV record')
+            ctx.check(info.server is not None and info.server.lower() == HOST, 'host not taken from the SRV record')
+            if not shape.get('server_given'):
+                ctx.check(info.port in (80, 81), 'port not taken from the SRV record')
             packed = [a.packed for a in info.ip_addresses_by_version(__import__('zeroconf').IPVersion.All)]
             ctx.check(len(packed) >= 1, 'success without an address')
             for p in packed:
@@ -158,7 +160,7 @@ def make(shape: Dict[str, Any], tier: str = 'thorough') -> Any:
             if not fresh_txt:
                 want.append((NAME.lower(), TXT))
             srv_unexp = [k for k in cached if k in ('S1', 'S1b') and unexpired(known[k], t0)]
-            host = HOST if srv_unexp else NAME.lower()
+            host = HOST if (srv_unexp or shape.get('server_given')) else NAME.lower()
             want += [(host, A), (host, AAAA)]
             ctx.check(asked == sorted(want), f'first query asks {asked}, expected {sorted(want)} (questions with fresh answers omitted)')
         # schedule: 200 ms + 20..120 ms after the first and after the second attempt, one second (+ jitter)
@@ -186,6 +188,8 @@ QUICK = {
     'address-cached-srv-arrives': sh(cached=['A1'], arrivals=[['S1']]),
     'forced-qm': sh(question_type=DNSQuestionType.QM, arrivals=[['S1', 'A1']]),
     'forced-qu': sh(question_type=DNSQuestionType.QU),
+    'address-cached-again-arrives': sh(cached=['S1', 'A1'], arrivals=[['A1']]),
+    'server-given-address-cached': sh(cached=['A1'], server_given=True),
 }
 THOROUGH = {
     'srv-then-address': sh(arrivals=[['S1', 'T1'], ['A1']]),
